@@ -20,6 +20,11 @@ from lsst.daf.relation import (
 from lsst.daf.relation import _operations as ops
 
 
+import os as _os
+
+_COLLIDE = _os.environ.get("VERIF_COLLIDE", "1") == "1"
+
+
 @dataclasses.dataclass(frozen=True)
 class Tag:
     """Column tag used by the harness (satisfies the ColumnTag protocol)."""
@@ -35,8 +40,12 @@ class Tag:
 
     def __hash__(self) -> int:
         # Same scheme as lsst.daf.relation.tests.ColumnTag: deterministic and
-        # independent of PYTHONHASHSEED.
-        return int.from_bytes(self.qualified_name.encode(), byteorder="little")
+        # independent of PYTHONHASHSEED.  With VERIF_COLLIDE=1 all tags collide
+        # modulo the small hash-table sizes (as tests.ColumnTag('a') / ('y') do),
+        # so equal sets built along different histories iterate in different
+        # orders - the situation in which positional UNION pairing matters.
+        h = int.from_bytes(self.qualified_name.encode(), byteorder="little")
+        return (1 + 8 * (h % 97)) if _COLLIDE else h
 
 
 NONKEY = {"v", "w"}
@@ -46,7 +55,15 @@ def tag(name: str) -> Tag:
     return Tag(name, is_key=name not in NONKEY)
 
 
-def tags(names) -> frozenset:
+def tags(names, reverse: bool | None = None) -> frozenset:
+    """Column set.  Under VERIF_COLLIDE the insertion order (and with colliding
+    hashes therefore the iteration order) is reversed for every other call
+    site that asks for it, so that equal sets iterate differently."""
+    names = list(names)
+    if reverse is None:
+        reverse = False
+    if reverse and _COLLIDE:
+        names = names[::-1]
     return frozenset(tag(n) for n in names)
 
 
@@ -122,7 +139,7 @@ def unary_op(o: dict) -> Any:
     if k == "calc":
         return ops.Calculation(tag(o["tag"]), expr(o["e"]))
     if k == "proj":
-        return ops.Projection(tags(o["cols"]))
+        return ops.Projection(tags(o["cols"], reverse=True))
     if k == "sel":
         return ops.Selection(pred(o["p"]))
     if k == "dedup":
